@@ -31,10 +31,17 @@ REGIONS = {
     "Future.done": (BoolS, None), "Future.exc": (ObjS, None),
     "FH.closed": (BoolS, None), "FH.ready": (ObjS, None), "Socket.closed": (BoolS, None),
 }
+GHOST_AUX = {"arrivals": "seq[obj]", "narr": "int", "hello_passed": "bool"}
+RELY_ONLY = {"S11-only-a-connect-phase-advances-the-state", "S12-only-a-connect-phase-attaches-transport"}      # guaranteed by every function that is not a connect phase; relied on by the phases      # per-call ghost outputs (not part of the connection state)
 GHOST = {
     "stop_calls": "int", "stop_arg": "bool", "graceful": "bool", "now": "real",
     "dispatched": "seq[tuple[obj,obj]]", "rx": "bool", "reported": "seq[obj]",
 }
+# ghost state owned by the connect phases of this object (never changed by anybody else, hence not havocked):
+#   in_phase        a connect phase (start_connection / finish_connection) of this object is running
+#   ever_connected  the state CONNECTED was reached (set where _set_connection_state(CONNECTED) executes)
+#   on_stop_given   a stop callback was passed to the constructor
+GHOST_OWNED = {"in_phase": "bool", "ever_connected": "bool", "on_stop_given": "bool"}
 
 S = "self.connection_state"
 ST = "aioesphomeapi.connection.ConnectionState"
@@ -45,10 +52,18 @@ ST = "aioesphomeapi.connection.ConnectionState"
 INV = [
     ("I1-connected-flag", f"iff(self.is_connected, {S} is CS.CONNECTED)", ["C05"]),
     ("I1-handshake-flag", f"iff(self._handshake_complete, {S} is CS.HANDSHAKE_COMPLETE or {S} is CS.CONNECTED)", ["C05"]),
-    ("I2-closed-released", f"implies({S} is CS.CLOSED, self._frame_helper is None and self._socket is None and self._ping_timer is None "
+    ("I2-closed-released", f"implies({S} is CS.CLOSED, self._ping_timer is None "
                            "and self._pong_timer is None and set_empty(self._read_exception_futures) "
                            "and fut_done_or_none(self._start_connect_future) and fut_done_or_none(self._finish_connect_future))", ["C08"]),
+    ("I2-closed-releases-transport", f"implies({S} is CS.CLOSED and not ghost.in_phase, self._frame_helper is None and self._socket is None)", ["C08"]),
+    ("I9-phase-ends-when-connected", "implies(ghost.in_phase, not self.is_connected)", ["C05"]),
+    ("I10-no-helper-before-the-finish-phase", f"implies(({S} is CS.SOCKET_OPENED or {S} is CS.INITIALIZED) and not ghost.in_phase, self._frame_helper is None)", ["C08"]),
+    ("I8-socket-while-open", f"implies({S} is CS.SOCKET_OPENED or {S} is CS.HANDSHAKE_COMPLETE or {S} is CS.CONNECTED, self._socket is not None)", ["C08"]),
     ("I3-stop-at-most-once", f"ghost.stop_calls == 0 or (ghost.stop_calls == 1 and {S} is CS.CLOSED and self.on_stop is None)", ["C07"]),
+    ("I3-connected-implies-ever", "implies(self.is_connected, ghost.ever_connected)", ["C07"]),
+    ("I3-ever-connected-stays-until-closed", f"implies(ghost.ever_connected and {S} is not CS.CLOSED, {S} is CS.CONNECTED)", ["C07"]),
+    ("I3-callback-kept-until-close", f"implies({S} is not CS.CLOSED, iff(ghost.on_stop_given, self.on_stop is not None))", ["C07"]),
+    ("I3-stop-exactly-once-iff-ever-connected", f"iff(ghost.stop_calls == 1, ghost.ever_connected and {S} is CS.CLOSED and ghost.on_stop_given)", ["C07"]),
     ("I4-helper-while-handshaken", "implies(self._handshake_complete, self._frame_helper is not None)", ["C09"]),
     ("I4-timers-only-while-handshaken", "implies(self._ping_timer is not None or self._pong_timer is not None, self._handshake_complete)", ["C08"]),
     ("I4-init-has-nothing", f"implies({S} is CS.INITIALIZED, self._socket is None and self._frame_helper is None)", ["C05"]),
@@ -65,8 +80,14 @@ STEP = [
     ("S4-expected-sticky", "implies(OLD(self._expected_disconnect), self._expected_disconnect)", ["C07"]),
     ("S5-stop-count-grows", "ghost.stop_calls >= OLD(ghost.stop_calls) and implies(OLD(self.on_stop) is None, self.on_stop is None) "
                             "and implies(ghost.stop_calls == OLD(ghost.stop_calls), ghost.stop_arg == OLD(ghost.stop_arg))", ["C07"]),
+    ("S13-stop-reports-the-graceful-marker", "implies(ghost.stop_calls > OLD(ghost.stop_calls), implies(OLD(ghost.graceful), ghost.stop_arg) and implies(not ghost.graceful, not ghost.stop_arg))", ["C07"]),
     ("S6-closed-stays-released", f"implies(OLD({S}) is CS.CLOSED, ghost.stop_calls == OLD(ghost.stop_calls))", ["C07"]),
     ("S7-time-monotone", "ghost.now >= OLD(ghost.now)", ["C10"]),
+    ("S11-only-a-connect-phase-advances-the-state", f"implies(ghost.in_phase, {S} is OLD({S}) or {S} is CS.CLOSED)", ["C05"]),
+    ("S12-only-a-connect-phase-attaches-transport", "implies(OLD(self._frame_helper) is None, self._frame_helper is None) and "
+                                                     "implies(OLD(self._socket) is None, self._socket is None)", ["C08"]),
+    ("S10-transport-kept-until-close", f"implies({S} is not CS.CLOSED, implies(OLD(self._frame_helper) is not None, self._frame_helper is OLD(self._frame_helper)) "
+                                       "and implies(OLD(self._socket) is not None, self._socket is OLD(self._socket)))", ["C08"]),
 ]
 
 
@@ -107,12 +128,15 @@ def step_clauses(kind="auxiliary"):
 def loop_inv_step():
     """Inv and Step(segment start, now) as loop invariants of a loop whose body contains cut points (sound because
     Step is reflexive and transitive - lemma target `step-is-a-preorder`)."""
-    return [(n, t) for n, t, _ in INV] + [(n, step_text(t, "seg")) for n, t, _ in STEP]
+    return [(n, t) for n, t, _ in INV] + [(n, step_text(t, "seg")) for n, t, _ in STEP] + \
+           [("S9-handler-entries-never-removed", "implies(old(has_entry(self, q), 'seg'), has_entry(self, q))")]
 
 
-def inv_step_ensures():
+def inv_step_ensures(phase_owner=False):
     """What every contracted method of the connection guarantees to its callers: Inv and Step(pre, post)."""
-    return [(n, t, "auxiliary") for n, t, _ in INV] + [(n, step_text(t), "auxiliary") for n, t, _ in STEP]
+    # the rely-only clauses are not part of the guarantee of a callee that suspends: its entry->exit includes what a running
+    # connect phase did meanwhile (synchronous call-outs cannot make a phase progress, so sync callees do guarantee them)
+    return [(n, t, "auxiliary") for n, t, _ in INV] + [(n, step_text(t), "auxiliary") for n, t, _ in STEP if not (phase_owner and n in RELY_ONLY)]
 
 
 def all_mods():
@@ -130,7 +154,7 @@ def install(eng, check_tags=None):
     eng.conn_check_tags = check_tags
     for k, v in REGIONS.items():
         eng.regions_decl[k] = v
-    declare_ghost(eng, **GHOST)
+    declare_ghost(eng, **GHOST, **GHOST_AUX, **GHOST_OWNED)
     names = eng.hooks.setdefault("names", {})
     names["CS"] = VClass(C.ConnectionState)
     import google.protobuf.message as gpm
@@ -255,6 +279,40 @@ def install(eng, check_tags=None):
         eng_.assumptions_used.add("A-PRED: the accept/stop predicates of a request-response call are pure functions of the message")
         return ok(st, VBool(pred_f(box(eng_, st, fv), box(eng_, st, args[0]))))
     eng.callout_models["Pred"] = pred_call
+
+    none_obj = z3.Const("none-obj", ObjS)
+
+    @bfn("pred_or_none")
+    def _pred_or_none(eng_, st, args, kwargs):
+        """pred_or_none(p, m): p is None (every message qualifies) or p(m)."""
+        p = box(eng_, st, args[0])
+        return ok(st, VBool(z3.Or(p == none_obj, pred_f(p, box(eng_, st, args[1])))))
+
+    @bfn("handler_registered")
+    def _handler_registered(eng_, st, args, kwargs):
+        hm = st.heap[st.heap[args[0].oid].f["_message_handlers"].oid]
+        k = class_key(eng_, st, args[1])
+        return ok(st, VBool(z3.And(z3.Select(hm.f["has"], k), z3.IsMember(box(eng_, st, args[2]), z3.Select(hm.f["sets"], k)))))
+
+    @bfn("is_collector")
+    def _is_collector(eng_, st, args, kwargs):
+        """is_collector(f, fut, responses, do_append, do_stop): f is partial(handle_complex_message, fut, responses, do_append, do_stop)."""
+        f = args[0]
+        okk = (isinstance(f, VFunc) and f.kind == "partial" and isinstance(f.func, VFunc) and f.func.kind == "py"
+               and f.func.qualname == "handle_complex_message" and len(f.args) == 4 and not f.kwargs)
+        if not okk:
+            return ok(st, VBool(False))
+        conj = [box(eng_, st, f.args[0]) == box(eng_, st, args[1]),
+                z3.BoolVal(isinstance(f.args[1], VRef) and isinstance(args[2], VRef) and f.args[1].oid == args[2].oid),
+                box(eng_, st, f.args[2]) == box(eng_, st, args[3]), box(eng_, st, f.args[3]) == box(eng_, st, args[4])]
+        return ok(st, VBool(simp(z3.And(*conj))))
+
+    @bfn("one_of_types")
+    def _one_of_types(eng_, st, args, kwargs):
+        """one_of_types(m, types): the class of message m is one of the classes in the tuple."""
+        m, types = args
+        k = class_key(eng_, st, VFunc("typeof", obj=m) if isinstance(m, VObj) else VClass(st.heap[m.oid].cls))
+        return ok(st, VBool(simp(z3.Or(*[k == class_key(eng_, st, t) for t in eng_.iter_concrete(types, st)]))))
 
     @bfn("has_entry")
     def _has_entry(eng_, st, args, kwargs):
@@ -404,6 +462,10 @@ def install(eng, check_tags=None):
                 if ev[0] == "write":
                     conj.append(z3.BoolVal(False) if seen_stop else z3.Not(ev[2]))
             return VBool(simp(z3.And(*conj)) if conj else True)
+        if name == "cancelled_here":
+            return VBool(any(ev[0] == "cancelled" for ev in st.events))
+        if name == "passed_loop":
+            return VBool(any(t.startswith("loop#") for t in st.trace))
         if name == "n_cuts":
             return VInt(sum(1 for ev in st.events if ev[0] == "cut"))
         return None
@@ -450,6 +512,13 @@ def install(eng, check_tags=None):
     eng.builtins[id(_time.time)] = b_time
     names["wallclock"] = VReal(wall)
 
+    import aioesphomeapi.model as M_
+
+    def b_types_to_names(eng_, st, args, kwargs):
+        eng_.assumptions_used.add("A-FSTRING")
+        return ok(st, VStr(z3.Const(fresh_name("names"), StrS)))       # text of an error message only
+    eng.builtins[id(M_.message_types_to_names)] = b_types_to_names
+
     def call_typeof(eng_, st, fv, args, kwargs):
         """type(x)(...) for an opaque exception x: a new exception object of exactly that class."""
         e = z3.Const(fresh_name("exc"), ObjS)
@@ -462,10 +531,16 @@ def install(eng, check_tags=None):
     def loop_time(eng_, st, recv, args, kwargs):
         return ok(st, st.heap[st.ghost_oid].f["now"])
 
+    objid_f = z3.Function("objid", ObjS, IntS)
+    _ids = [0]
+
     def new_obj(st, base, kind):
+        """A newly allocated object: different from every object that existed at entry and from every other new one."""
         e = z3.Const(fresh_name(base), ObjS)
-        st._fresh_objs = getattr(st, "_fresh_objs", []) + [e]
+        _ids[0] += 1
+        st.fact(z3.And(z3.Not(heapmodel.is_old_f(e)), objid_f(e) == _ids[0], e != z3.Const("none-obj", ObjS)))
         return e
+    eng.new_obj = new_obj
 
     def loop_call_at(eng_, st, recv, args, kwargs):
         when, cb = args[0], args[1]
@@ -501,7 +576,9 @@ def install(eng, check_tags=None):
                     rset(eng_, s, "Future.done", recv.e, z3.BoolVal(True))
                     bx = box(eng_, s, args[0]) if exc else noexc
                     if exc:
-                        s.fact(bx != noexc)          # `noexc` is the marker "no exception", not an exception object
+                        s.fact(bx != noexc)
+                        if isinstance(args[0], VClass):      # set_exception(SomeError): awaiting raises an instance of that class
+                            s.fact(typeof_f(bx) == cls_code(args[0].py))          # `noexc` is the marker "no exception", not an exception object
                     rset(eng_, s, "Future.exc", recv.e, bx)
                     out.append((s, VNone))
             return out
@@ -548,6 +625,8 @@ def install(eng, check_tags=None):
     eng.obj_methods[("FrameHelper", "write_packets")] = fh_write_packets
     eng.obj_methods[("FrameHelper", "set_log_name")] = lambda e, s, r, a, k: ok(s, VNone)
     eng.obj_methods[("Socket", "close")] = sock_close
+    recv_name_f = z3.Function("exc_received_name", ObjS, StrS)
+    eng.obj_attrs[("Exception", "received_name")] = lambda e, s, v: VStr(recv_name_f(v.e))
     eng.obj_attrs[("FrameHelper", "ready_future")] = lambda e, s, v: VObj(rget(e, s, "FH.ready", v.e), "Future")
 
     # ---- messages ---------------------------------------------------------------------------------------
@@ -574,6 +653,52 @@ def install(eng, check_tags=None):
         b = fresh(eng_, st, "bytes", "ser")
         st.events = st.events + [("ser", b.e, recv)]
         return ok(st, b)
+
+    msg_field_fns = {}
+
+    def msg_field(cls, name):
+        from pyvc.heapmodel import _fd_type
+        fd = cls.DESCRIPTOR.fields_by_name[name]
+        t = _fd_type(fd)
+        srt = {"int": IntS, "bool": BoolS, "real": RealS, "str": StrS, "bytes": BytesS}.get(t)
+        if srt is None or heapmodel.is_repeated(fd):
+            raise Unsupported(f"field {cls.__name__}.{name} of an opaque message")
+        key = (cls.__name__, name)
+        if key not in msg_field_fns:
+            msg_field_fns[key] = (z3.Function(f"field_{cls.__name__}_{name}", ObjS, srt), t)
+        return msg_field_fns[key]
+
+    def msg_field_value(st, cls, name, e):
+        f, t = msg_field(cls, name)
+        return {"int": VInt, "bool": VBool, "real": VReal, "str": VStr, "bytes": VBytes}[t](f(e))
+    eng.msg_field_value = msg_field_value
+
+    def as_record(eng_, st, v, cls):
+        """A received opaque message known to be of class cls, as a record of its (uninterpreted) field values."""
+        o = HObj("msg", cls, {})
+        for fd in cls.DESCRIPTOR.fields:
+            try:
+                o.f[fd.name] = msg_field_value(st, cls, fd.name, v.e)
+            except Unsupported:
+                o.f[fd.name] = VObj(z3.Const(fresh_name(fd.name), ObjS), "SubMessage")
+        o.f["__box__"] = v.e
+        return VRef(st.alloc(o))
+    eng.as_record = as_record
+
+    prev_obj_getattr = eng.hooks["obj_getattr"]
+
+    def obj_getattr(eng_, st, v, name):
+        r = prev_obj_getattr(eng_, st, v, name)
+        if r is not None or v.cls != "Message":
+            return r
+        import aioesphomeapi.api_pb2 as pb2
+        cands = [getattr(pb2, nm) for _, nm in ORACLE if name in getattr(pb2, nm).DESCRIPTOR.fields_by_name]
+        feas = [c for c in cands if smt.feasible(st.pc, typeof_f(v.e) == cls_code(c))]
+        other = smt.feasible(st.pc + [typeof_f(v.e) != cls_code(c) for c in cands]) if cands else True
+        if len(feas) == 1 and not other:
+            return msg_field_value(st, feas[0], name, v.e)
+        raise MessageAttrFork(v, name, feas, other)
+    eng.hooks["obj_getattr"] = obj_getattr
 
     eng.obj_methods[("Message", "MergeFromString")] = msg_merge
     eng.obj_methods[("Message", "SerializeToString")] = msg_ser
@@ -778,6 +903,13 @@ def install(eng, check_tags=None):
     eng.hooks["exit_checks"] = exit_checks
 
 
+class MessageAttrFork(Exception):
+    """Attribute access on an opaque message whose class is not determined on the path: the engine forks."""
+
+    def __init__(self, v, name, feas, other):
+        self.v, self.name, self.feas, self.other = v, name, feas, other
+
+
 class VSetVal(V):
     """Immutable set-of-objects value (contract language only)."""
 
@@ -853,7 +985,25 @@ def check_inv_step(eng, st, selfref, where):
         g = eval_clause(eng, st, _parse_expr(txt), {"self": selfref})
         oblige(eng, st, g, f"{where}/Inv:{name}", kind="property" if mine else "auxiliary", tags=mine or None)
     if "seg" in st.labels:
+        seg = st.labels["seg"]
+        try:
+            hm_new = st.heap[st.heap[selfref.oid].f["_message_handlers"].oid]
+            hm_old = seg.heap[seg.heap[selfref.oid].f["_message_handlers"].oid]
+            qv = st.env.f.get("q") if st.frames else None
+            fr = st.frames[-1]
+            while qv is None and fr is not None:
+                qv = st.heap[fr].f.get("q")
+                fr = st.heap[fr].f.get("__parent__")
+            # an arbitrary key: the function's universally quantified ghost class `q` when it has one, else a fresh one
+            q = qv.code if (isinstance(qv, VFunc) and qv.kind == "symcls") else z3.Int(fresh_name("anykey"))
+            mine = [t for t in ["C11"] if tags is None or t in tags]
+            oblige(eng, st, z3.Implies(z3.Select(hm_old.f["has"], q), z3.Select(hm_new.f["has"], q)), f"{where}/Step:S9-handler-entries-never-removed",
+                   kind="property" if mine else "auxiliary", tags=mine or None)
+        except KeyError:
+            pass
         for name, txt, ptags in STEP:
+            if name in RELY_ONLY and getattr(eng.active_contract, "phase_owner", False):
+                continue
             mine = [t for t in ptags if tags is None or t in tags]
             g = eval_clause(eng, st, _parse_expr(step_text(txt, "seg")), {"self": selfref})
             oblige(eng, st, g, f"{where}/Step:{name}", kind="property" if mine else "auxiliary", tags=mine or None)
@@ -898,12 +1048,39 @@ def tracked_objs(st):
     return list(out.values())
 
 
+def tracked_class_keys(eng, st):
+    out = {}
+
+    def add(v):
+        if isinstance(v, (VClass,)) or (isinstance(v, VFunc) and v.kind in ("symcls", "typeof")):
+            try:
+                k = class_key(eng, st, v)
+                out[k.get_id()] = k
+            except Unsupported:
+                pass
+        elif isinstance(v, VTuple):
+            for x in v.items:
+                add(x)
+        elif isinstance(v, VUnion):
+            for _, a in v.alts:
+                add(a)
+    for o in st.heap.values():
+        if o.kind == "env":
+            for v in o.f.values():
+                if isinstance(v, V):
+                    add(v)
+    return list(out.values())
+
+
 def havoc_world(eng, st, selfref, reentrant_only=False):
     """Everything any other task, timer, transport callback or re-entrant callback may do: all mutable fields,
     regions, handler table and ghost state become arbitrary, constrained by Step(before, after) and Inv(after)."""
     pre = st.clone()
     objs = tracked_objs(st)
+    ckeys = tracked_class_keys(eng, st)
     o = st.heap[selfref.oid]
+    hm0 = st.heap[o.f["_message_handlers"].oid]
+    old_has = hm0.f["has"]
     cs = eng.class_specs[o.cls]
     for f in MUT_FIELDS:
         if f == "_message_handlers":
@@ -950,9 +1127,14 @@ def havoc_world(eng, st, selfref, reentrant_only=False):
                 st.assume(z3.Implies(z3.Select(old_regions[r], e), z3.Select(st.regions[r], e)))
         if "FH.ready" in old_regions:
             st.assume(z3.Select(st.regions["FH.ready"], e) == z3.Select(old_regions["FH.ready"], e))
+    for k in ckeys:      # Step S9 (handler entries are never removed), instantiated for the class keys this frame can name
+        st.assume(z3.Implies(z3.Select(old_has, k), z3.Select(hm0.f["has"], k)))
     st.labels = dict(st.labels)
     st.labels["seg"] = pre
+    owner = getattr(eng.active_contract, "phase_owner", False)
     for name, txt, _ in STEP:
+        if name in RELY_ONLY and not owner and not reentrant_only:
+            continue        # the environment of a suspended non-phase function includes a running connect phase
         st.assume(eval_clause(eng, st, _parse_expr(step_text(txt, "seg")), {"self": selfref}))
     for name, txt, _ in INV:
         st.assume(eval_clause(eng, st, _parse_expr(txt), {"self": selfref}))
@@ -974,6 +1156,8 @@ def entry_setup(eng, st):
     for r in REGIONS:
         region(eng, st, r)
     st.fact(enum_f(z3.EmptySet(ObjS)) == z3.Empty(ObjSeqS))      # A-SETITER: iterating the empty set visits nothing
+    for e in tracked_objs(st):
+        st.fact(heapmodel.is_old_f(e))                            # the objects named by the inputs existed before this call
     for name, txt, _ in INV:
         st.assume(eval_clause(eng, st, _parse_expr(txt), {"self": selfref}))
     st.labels = dict(st.labels)
@@ -993,3 +1177,251 @@ def conn_contract(qualname, **kw):
     c = Contract(CONN + "APIConnection." + qualname, setup=_setup, **kw)
     c.conn_entry = True
     return c
+
+
+# ------------------------------------------------------------------------------------------------------------
+# await / async with  (DESIGN 3.6)
+# ------------------------------------------------------------------------------------------------------------
+def await_key(eng, st, n):
+    """await#k : ordinal of this await among the awaits of the enclosing function (source order)."""
+    import ast as _ast
+    fn = None
+    oid = st.frames[-1]
+    while oid is not None and fn is None:
+        fn = st.heap[oid].f.get("__fnode__")
+        oid = st.heap[oid].f.get("__parent__")
+    if fn is None:
+        return None
+    aw = [x for x in _ast.walk(fn) if isinstance(x, _ast.Await)]
+    aw.sort(key=lambda x: (x.lineno, x.col_offset))
+    return f"await#{aw.index(n) + 1}" if n in aw else None
+
+
+def ctx_stack(st):
+    return st.heap[st.ghost_oid].f.get("__ctx__", ())
+
+
+def install_async(eng):
+    import asyncio
+    import aioesphomeapi.connection as C
+    names = eng.hooks.setdefault("names", {})
+    eng.exception_universe.extend([asyncio.CancelledError, asyncio.TimeoutError])
+
+    def cancel_outcome(eng_, st):
+        s = st.clone()
+        s.note("await!CancelledError")
+        s.events = s.events + [("cancelled",)]
+        return (s, Raised(eng_.make_exc(s, asyncio.CancelledError, [])))
+
+    def ctx_outcomes(eng_, st):
+        """Extra ways an await inside `async with asyncio_timeout(..)` can end."""
+        out = []
+        for kind, data in ctx_stack(st):
+            if kind == "timeout":
+                s = st.clone()
+                s.note("await!TimeoutError(ctx)")
+                out.append((s, Raised(eng_.make_exc(s, asyncio.TimeoutError, []))))
+        return out
+
+    def await_hook(eng_, st, v):
+        n = eng_.cur_await_node
+        if not (isinstance(v, VObj) and v.cls == "Future") and not (isinstance(v, VFunc) and v.kind == "awaitable"):
+            return ok(st, v)              # result of an `async def` call: it already ran (coroutines are awaited at once here)
+        key = await_key(eng_, st, n)
+        c = eng_.active_contract
+        spec = (getattr(c, "cutpoints", None) or {}).get(key, {}) if c is not None else {}
+        selfref = find_conn(st)
+        if isinstance(v, VFunc):
+            return v.run(eng_, st, key, spec)
+        return await_future(eng_, st, v, key, spec, selfref)
+
+    def await_future(eng_, st, fut, key, spec, selfref):
+        out = []
+        # every wait has a deadline (C09): an armed timer created on this path completes this future, or a timeout context is open
+        timers = [ev[1] for ev in st.events if ev[0] == "call_at"]
+        dl = [z3.And(rget(eng_, st, "Timer.armed", t), rget(eng_, st, "Timer.arg", t) == fut.e,
+                     rget(eng_, st, "Timer.cb", t) == box(eng_, st, eng_.lift(C.handle_timeout, st))) for t in timers]
+        if any(k == "timeout" for k, _ in ctx_stack(st)):
+            dl.append(z3.BoolVal(True))
+        tags = getattr(eng_, "conn_check_tags", None)
+        oblige(eng_, st, simp(z3.Or(*dl)) if dl else z3.BoolVal(False), f"{key}/wait-has-an-armed-deadline",
+               kind="property" if (tags is None or "C09" in tags) else "auxiliary", tags=["C09"] if (tags is None or "C09" in tags) else None)
+        for name, txt, *rest in spec.get("check", []):
+            g = eval_clause(eng_, st, _parse_expr(txt))
+            ptags = rest[0] if rest else None
+            mine = [t for t in (ptags or []) if tags is None or t in tags]
+            oblige(eng_, st, g, f"{key}/{name}", kind="property" if mine else "auxiliary", tags=mine or None)
+        cut(eng_, st, selfref, key, check=True)
+        for lv in spec.get("havoc", []):
+            eng_.hooks["havoc"](eng_, st, lv)
+        for nm, ty in spec.get("havoc_typed", {}).items():
+            from pyvc.contracts import havoc_like
+            cur = eng_.lookup(nm, st)
+            nv = havoc_like(eng_, st, cur, nm, ty)
+            if nv is not cur:
+                eng_.assign_name(nm, nv, st)
+        for gname, gty in spec.get("ghost_fresh", {}).items():
+            st.heap[st.ghost_oid].f[gname] = fresh(eng_, st, gty, "ghost." + gname)
+        for txt in spec.get("assume", []):
+            st.assume(eval_clause(eng_, st, _parse_expr(txt)))
+        # resumed because the future completed ...
+        s_done = st.clone()
+        s_done.assume(rget(eng_, s_done, "Future.done", fut.e))
+        for txt in spec.get("assume_done", []):
+            s_done.assume(eval_clause(eng_, s_done, _parse_expr(txt)))
+        for s2, has in eng_.fork_bool(rget(eng_, s_done, "Future.exc", fut.e) != noexc, s_done, f"{key}:exc"):
+            if not has:
+                out.append((s2, VNone))
+                continue
+            ex = VObj(rget(eng_, s2, "Future.exc", fut.e), "Exception")
+            cands = spec.get("exc_classes")
+            if cands is None:
+                raise Unsupported(f"{key}: the contract does not say who may complete the awaited future (exc_classes)")
+            alts = []
+            for cname in cands:
+                k = eng_.resolve_class(cname)
+                s3 = s2.clone()
+                if cname.startswith("class:"):
+                    pass
+                s3.assume(sym_isinstance(eng_, ex, k))
+                if smt.feasible(s3.pc):
+                    s3.note(f"{key}!{k.__name__}")
+                    out.append((s3, Raised(ex)))
+        # ... or because this task was cancelled (by its owner, or by an enclosing interrupt block)
+        out.append(cancel_outcome(eng_, st))
+        out.extend(ctx_outcomes(eng_, st))
+        return out
+
+    eng.hooks["await"] = await_hook
+    eng.await_future = await_future
+
+    def after_apply(eng_, c, s):
+        """A callee that suspends has verified its own segments: for the caller it is a cut point (a new segment starts)."""
+        if getattr(c, "has_awaits", False):
+            s.labels = dict(s.labels)
+            s.labels["seg"] = s.clone()
+            s.labels["seg"].labels = {}
+            s.events = s.events + [("cut", "callee")]
+    eng.hooks["after_apply"] = after_apply
+
+    def lib_awaitable(name, outcomes):
+        """A library coroutine: a cut point, then one of the listed outcomes (builders (eng, st) -> (st, V|Raised)), or cancellation."""
+        def run(eng_, st, key, spec):
+            selfref = find_conn(st)
+            tags = getattr(eng_, "conn_check_tags", None)
+            # asyncio.wait carries its own timeout; create_connection(sock=<connected socket>) only wraps the socket (A-LIB)
+            bounded = any(k == "timeout" for k, _ in ctx_stack(st)) or name in ("asyncio.wait", "loop.create_connection")
+            oblige(eng_, st, z3.BoolVal(bounded), f"{key}/wait-has-an-armed-deadline", kind="property" if (tags is None or "C09" in tags) else "auxiliary",
+                   tags=["C09"] if (tags is None or "C09" in tags) else None, detail=f"library call {name}")
+            cut(eng_, st, selfref, key, check=True)
+            out = []
+            for ob in outcomes:
+                s2 = st.clone()
+                r = ob(eng_, s2)
+                if r is not None:
+                    out.append(r)
+            out.append(cancel_outcome(eng_, st))
+            out.extend(ctx_outcomes(eng_, st))
+            return out
+        return VFunc("awaitable", run=run, name=name)
+
+    def raise_of(cls):
+        def ob(eng_, s):
+            s.note(f"lib!{cls.__name__}")
+            return (s, Raised(eng_.fresh_exception(s, cls)))
+        return ob
+
+    def loop_create_connection(eng_, st, recv, args, kwargs):
+        def okk(eng2, s):
+            fh = eng2.new_obj(s, "fh", "FrameHelper")
+            rset(eng2, s, "FH.closed", fh, z3.BoolVal(False))
+            rf = z3.Const(fresh_name("ready_future"), ObjS)
+            rset(eng2, s, "FH.ready", fh, rf)
+            tr = z3.Const(fresh_name("transport"), ObjS)
+            s.events = s.events + [("new_helper", fh)]
+            return (s, VTuple([VObj(tr, "Transport"), VObj(fh, "FrameHelper")]))
+        import aioesphomeapi.core as core
+        return ok(st, lib_awaitable("loop.create_connection", [okk, raise_of(OSError), raise_of(core.APIConnectionError)]))
+    eng.obj_methods[("Loop", "create_connection")] = loop_create_connection
+
+    def b_asyncio_wait(eng_, st, args, kwargs):
+        futs = eng_.iter_concrete(args[0], st)
+        if len(futs) != 1:
+            raise Unsupported("asyncio.wait on several futures")
+        alts = eng_.split_union(futs[0], st)
+        alts = [(s_, a) for s_, a in alts if not isinstance(a, VNoneT)]
+        if len(alts) != 1:
+            raise Unsupported("asyncio.wait on a possibly-None future")
+        st, f = alts[0]
+
+        def okk(eng2, s):
+            d = rget(eng2, s, "Future.done", f.e)
+            pend = VRef(s.alloc(HObj("sset", None, {"e": z3.If(d, z3.EmptySet(ObjS), z3.SetAdd(z3.EmptySet(ObjS), f.e)), "kind": "Future"})))
+            return (s, VTuple([VNone, pend]))
+        return ok(st, lib_awaitable("asyncio.wait", [okk]))
+    eng.builtins[id(asyncio.wait)] = b_asyncio_wait
+
+    import aioesphomeapi.host_resolver as hr
+    import aioesphomeapi.core as core_
+
+    def b_resolve(eng_, st, args, kwargs):
+        def okk(eng2, s):
+            return (s, VObj(z3.Const(fresh_name("addrs"), ObjS), "AddrList"))
+        return ok(st, lib_awaitable("hr.async_resolve_host", [okk, raise_of(core_.APIConnectionError)]))
+    eng.builtins[id(hr.async_resolve_host)] = b_resolve
+
+    # ---- context managers ---------------------------------------------------------------------------------------
+    import async_interrupt
+
+    def b_interrupt(eng_, st, args, kwargs):
+        return ok(st, VFunc("ctx", ckind="interrupt", fut=args[0], exc=args[1]))
+
+    def b_timeout(eng_, st, args, kwargs):
+        return ok(st, VFunc("ctx", ckind="timeout", bound=args[0]))
+    eng.builtins[id(async_interrupt.interrupt)] = b_interrupt
+    eng.builtins[id(C.interrupt)] = b_interrupt
+    eng.builtins[id(C.asyncio_timeout)] = b_timeout
+    eng.builtins[id(asyncio.timeout)] = b_timeout
+
+    def with_hook(eng_, n, st):
+        if len(n.items) != 1:
+            raise Unsupported("with statement with several items")
+        item = n.items[0]
+        out = []
+        for s, cv in eng_.ev(item.context_expr, st):
+            if isinstance(cv, Raised):
+                out.append((s, cv))
+                continue
+            if not (isinstance(cv, VFunc) and cv.kind == "ctx"):
+                h2 = eng_.hooks.get("with_other")
+                if h2 is not None:
+                    r = h2(eng_, n, s, cv)
+                    if r is not None:
+                        out.extend(r)
+                        continue
+                raise Unsupported(f"context manager {cv}")
+            g = s.heap[s.ghost_oid]
+            saved = g.f.get("__ctx__", ())
+            g.f["__ctx__"] = saved + ((cv.ckind, cv),)
+            if item.optional_vars is not None:
+                eng_.assign(item.optional_vars, VNone, s)
+            for s2, o2 in eng_.exec_block(n.body, s):
+                s2.heap[s2.ghost_oid].f["__ctx__"] = saved
+                if cv.ckind == "interrupt" and isinstance(o2, Raised) and z3.is_true(simp(eng_.exc_isinstance(o2.exc, asyncio.CancelledError, s2))):
+                    # __aexit__: a cancellation caused by the interrupt future becomes the configured exception
+                    futv = cv.fut
+                    alts = futv.alts if isinstance(futv, VUnion) else [(z3.BoolVal(True), futv)]
+                    done = simp(z3.Or(*[z3.And(gd, rget(eng_, s2, "Future.done", a.e)) for gd, a in alts if not isinstance(a, VNoneT)]))
+                    s_int = s2.clone()
+                    s_int.assume(done)
+                    if smt.feasible(s_int.pc):
+                        s_int.note("interrupted")
+                        for s4, ex in eng_.call(cv.exc, [], {}, s_int):
+                            out.append((s4, Raised(ex) if not isinstance(ex, Raised) else ex))
+                    s_user = s2                       # cancelled by the task's owner: stays a CancelledError
+                    s_user.note("cancelled-by-owner")
+                    out.append((s_user, o2))
+                    continue
+                out.append((s2, o2))
+        return out
+    eng.hooks["with"] = with_hook
